@@ -279,6 +279,38 @@ func relaxCounts(s *gen.SpecM) {
 var plainIdent = regexp.MustCompile(`^[a-z][a-z0-9]*$`)
 var reservedName = map[string]bool{"for": true, "if": true, "in": true, "null": true, "true": true, "false": true}
 
+// plainForEachOnly reports whether every dynamic block iterates over a variable or a
+// constructor: then unknown element values cannot make the number of iterations unknown
+// (a for_each computed from element values, or an inner iterator's value, legitimately
+// becomes unknown, and dynblock then stands in one placeholder block).
+func plainForEachOnly(b *ast.Body) bool {
+	ok := true
+	var walk func(b *ast.Body)
+	walk = func(b *ast.Body) {
+		for _, it := range b.Items {
+			switch x := it.(type) {
+			case ast.Block:
+				walk(x.Body)
+			case ast.Dyn:
+				switch fe := x.ForEach.(type) {
+				case ast.Var, ast.Tuple:
+				case ast.Object:
+					for _, item := range fe.Items {
+						if item.Kind != ast.KeyIdent {
+							ok = false
+						}
+					}
+				default:
+					ok = false
+				}
+				walk(x.Content)
+			}
+		}
+	}
+	walk(b)
+	return ok
+}
+
 // sameTopStructure compares, for the block-collection specs at the top level of the spec
 // tree, the value decoded with partially unknown inputs against the concrete one: the
 // collection built from the blocks must be known and have the same number of members.
@@ -413,7 +445,7 @@ func TestC18_Expand(t *testing.T) {
 			// a collection of known length with unknown element values still yields one block
 			// per element: the structure built from the blocks stays known, only the values
 			// that read the unknown elements become unknown
-			if !gdiags.HasErrors() && rapid.IntRange(0, 3).Draw(t, "partially_unknown_elements") == 0 {
+			if !gdiags.HasErrors() && plainForEachOnly(tree) && rapid.IntRange(0, 3).Draw(t, "partially_unknown_elements") == 0 {
 				pctx := evalCtx(sc)
 				for name, v := range ctx.Variables {
 					pctx.Variables[name] = v
